@@ -104,7 +104,21 @@ class Step:
         s.path = path; s.pc = path.pc; s.ex = path.ex; s.model = path.value
         recs = [l for l in path.ex.loops if l['kind'] == 'recurrence']
         if len(recs) != 1: raise Unsupported("expected exactly one step loop, found %d" % len(recs))
-        s.rec = recs[0]; s.lists = s.rec['lists']; s.locals = s.rec['locals']
+        s.rec = recs[0]; s.locals = s.rec['locals']
+        # the loop's lists under canonical names: a list that the returned model exposes in field F is called by F's series name,
+        # whatever the local variable is called (the proofs speak about the reported series, not about local names)
+        lists = dict(s.rec['lists'])
+        m = s.model
+        if isinstance(m, Obj):
+            rev = {v: k for k, v in s.FIELD.items()}
+            for fld, v in m.f.items():
+                if isinstance(v, Post):
+                    for L, g in list(lists.items()):
+                        if g is v.grow:
+                            canon = rev.get(fld, fld)
+                            if L != canon and canon not in s.rec['lists']:
+                                del lists[L]; lists[canon] = g
+        s.lists = lists
 
     FIELD = {'feed_composition': 'feed_compositions'}
 
@@ -114,7 +128,20 @@ class Step:
         if not isinstance(v, Seq): raise Unsupported("series %s is neither built by the step loop nor a precomputed list" % name)
         return v
 
+    def resolve(s, name):
+        """the loop's list for a series: by the local's name, or - if the locals were renamed - the list that the returned ProcessModel
+        exposes in the corresponding field"""
+        if name in s.lists: return name
+        m = s.model
+        fld = s.FIELD.get(name, name)
+        v = m.f.get(fld) if isinstance(m, Obj) else None
+        if isinstance(v, Post):
+            for L, g in s.lists.items():
+                if g is v.grow: return L
+        return name
+
     def read(s, name, c=0):
+        name = s.resolve(name)
         if name not in s.lists: return s.ex.seq_get(s.series(name), var('k', 'I') + c)
         g = s.lists[name]
         j = c - len(g.init)
@@ -125,12 +152,14 @@ class Step:
         return g.reads[c]
 
     def appended(s, name, i=0):
+        name = s.resolve(name)
         if name not in s.lists: return s.ex.seq_get(s.series(name), var('k', 'I') + 1)
         g = s.lists[name]
         if i >= len(g.app): raise Unsupported("list %s is not appended in the step loop" % name)
         return g.app[i]
 
     def init(s, name):
+        name = s.resolve(name)
         if name not in s.lists: return [s.ex.seq_get(s.series(name), lift(0))]
         return s.lists[name].init
 
